@@ -164,7 +164,7 @@ func sceneExpiry(o ReqOpts) {
 			burned = burned.Add(amt)
 			chk("C04 C03", post.Deposit.AmountOf(Denom).Equal(newDep), "slashed-by-floor-of-fraction")
 			chk("C04 C14", post.Available == avail, "auto-disable-iff-below-minimum")
-			chk("C04", post.DisabledTime.Equal(disabled), "disabled-time-is-block-time")
+			chk("C04 C20 C03", post.DisabledTime.Equal(disabled), "disabled-time-is-block-time")
 			chk("C14", vf.Implies(post.Available, post.Deposit.AmountOf(Denom).GTE(MinDepositRef(k, ctx, b.Pricing.Price.AmountOf(Denom)))), "available-holds-minimum")
 		} else {
 			chk("C04 C03", vf.All(post.Deposit.AmountOf(Denom).Equal(b.Deposit), post.Available == b.Available, post.DisabledTime.Equal(b.DisabledTime)), "not-slashed-without-failure")
